@@ -283,7 +283,9 @@ func (i ItemCollection) Equals(with Item) bool {
 			return nil
 		}
 		for _, it := range i {
-			if !w.Contains(it.GetLink()) {
+			// NOTE: the member itself is looked up, not its IRI: an IRI never equals an embedded object that has
+			// no id, so a list with such a member was not equal to itself (and a nil member has no IRI to ask for)
+			if !w.Contains(it) {
 				result = false
 				return nil
 			}
